@@ -49,7 +49,10 @@ EXHAUSTIVE = {"quick": False, "thorough": True}
 IRR = 9  # index of the irrelevant event "X"
 FAIL = 100  # event FAIL+i makes flow f<i> fail (ops awaitf / whenf only)
 # when2: the top-level `or` of the formula is spelled as two cases `when g1 / send Hit()` `or when g2 / send Hit2()`
-OPS = ["match", "await", "when", "whenmix", "awaitf", "whenf", "when2"]
+OPS = ["match", "await", "when", "whenmix", "awaitf", "whenf", "when2", "whenfe"]
+# ops whose atoms are all flows and whose statement is one group: compared with the flow-level machine `GroupFlow` (T3)
+FAIL_OPS = ("awaitf", "whenf", "whenfe")
+FLOW_OPS = ("await", "when", "awaitf", "whenf", "whenfe")
 
 
 def translate():
@@ -175,14 +178,14 @@ def renderable(g, top=True):
 def kinds_for(op, rng=None, g=None):
     if op == "match":
         return ["ev"] * 10
-    if op in ("await", "when", "awaitf", "whenf", "when2"):
+    if op in ("await", "when", "awaitf", "whenf", "when2", "whenfe"):
         return ["flow"] * 10
     ks = [rng.choice(["ev", "flow"]) for _ in range(10)]
     return ks
 
 
 def program(op, g, kinds, minimal=False):
-    if op in ("awaitf", "whenf"):
+    if op in ("awaitf", "whenf", "whenfe"):
         # sub-flows that finish on E<i> and fail on F<i>
         subs = "".join(f"flow f{i}\n  when E{i}()\n    return\n  or when F{i}()\n    abort\n\n" for i in sorted(set(atoms_of(g))))
     else:
@@ -192,6 +195,8 @@ def program(op, g, kinds, minimal=False):
         body = f"  match {grp}\n  send Hit()\n"
     elif op in ("await", "awaitf"):
         body = f"  await {grp}\n  send Hit()\n"
+    elif op == "whenfe":
+        body = f"  when {grp}\n    send Hit()\n  else\n    send Hit2()\n"
     elif op == "when2":
         g1, g2 = g["or"]
         body = f"  when {render(g1, kinds, minimal)}\n    send Hit()\n  or when {render(g2, kinds, minimal)}\n    send Hit2()\n"
@@ -267,7 +272,7 @@ def gen_cases(rng, tier):
         if op == "when2":
             g = {"or": [g_formula(rng, n_atoms, rng.randint(1, 4), rng.randint(0, 3)), g_formula(rng, n_atoms, rng.randint(1, 4), rng.randint(0, 3))]}
         kinds = kinds_for(op, rng, g)
-        cases.append({"kind": "e2e", "op": op, "g": g, "kinds": kinds[:5], "minimal": rng.random() < 0.3, "seqs": g_seqs(rng, g, n_seq, fails=op.endswith("f"))})
+        cases.append({"kind": "e2e", "op": op, "g": g, "kinds": kinds[:5], "minimal": rng.random() < 0.3, "seqs": g_seqs(rng, g, n_seq, fails=op in FAIL_OPS)})
     if not quick:
         # exhaustive small scope: all trees with <= 3 leaves over <= 3 atoms x all sequences of length <= 4
         for leaves in (2, 3):
@@ -283,7 +288,7 @@ def gen_cases(rng, tier):
             al = sorted(set(atoms_of(g))) + [IRR]
             cases.append({"kind": "e2e", "op": op, "g": g, "kinds": kinds_for(op, rng, g)[:5], "minimal": False, "seqs": [list(p) for p in itertools.permutations(al)]})
         # failing sub-flows: all trees with <= 2 leaves, all sequences of length <= 4 over finish/fail events + irrelevant
-        for op in ("awaitf", "whenf"):
+        for op in FAIL_OPS:
             for g in all_trees(2, 2):
                 al = sorted(set(atoms_of(g)))
                 cases.append({"kind": "e2e", "op": op, "g": g, "kinds": ["flow"] * 5, "minimal": False, "seqs": list(all_seqs(al + [FAIL + a for a in al] + [IRR], 4))})
@@ -602,13 +607,14 @@ def run_e2e(case):
         obs["start_out"] = sorted({e.get("type") for e in st.outgoing_events})
         obs["main_after_start"] = _main_status(st)
         obs["heads_init"] = _heads(st)
+        obs["kids_init"] = _kids(st)
     except Exception as e:  # noqa
         obs["build_exc"] = f"{type(e).__name__}: {e}"[:300]
         return obs
     runs = []
     for seq in case["seqs"]:
         s = copy.deepcopy(st)
-        hits, extra, exc, which, heads = [], set(), None, [], []
+        hits, extra, exc, which, heads, fails, kids, mains = [], set(), None, [], [], [], [], []
         import random as _random
 
         _CH["rng"] = _random.Random(json.dumps([case["g"], seq]))
@@ -618,14 +624,23 @@ def run_e2e(case):
                 for a in seq:
                     sm.run_to_completion(s, {"type": ev_name(a)})
                     got = [e.get("type") for e in s.outgoing_events if e.get("type") in ("Hit", "Hit2")]
-                    hits.append(len(got))
-                    which.extend(got)
+                    if case["op"] == "whenfe":
+                        hits.append(got.count("Hit"))
+                        fails.append(got.count("Hit2"))
+                        which.extend(x for x in got if x == "Hit")
+                    else:
+                        hits.append(len(got))
+                        which.extend(got)
+                    if case["op"] in FLOW_OPS:
+                        kids.append(_kids(s))
+                        mains.append(_main_status(s))
                     extra.update(e.get("type") for e in s.outgoing_events if e.get("type") not in ("Hit", "Hit2"))
                     if case["op"] == "match":
                         heads.append(_heads(s))
         except Exception as e:  # noqa
             exc = f"{type(e).__name__}: {e}"[:200]
-        runs.append({"hits": hits, "which": which, "extra": sorted(extra), "exc": exc, "main": _main_status(s), "heads": heads, "choices": list(_CH["log"])})
+        runs.append({"hits": hits, "which": which, "extra": sorted(extra), "exc": exc, "main": _main_status(s), "heads": heads, "choices": list(_CH["log"]),
+                     "fails": fails, "kids": kids, "mains": mains})
     obs["runs"] = runs
     return obs
 
@@ -637,6 +652,26 @@ def _heads(st):
         return sorted([h.position - 1, STATUS_CODE.get(h.status.name, 9)] for h in fs.heads.values())
     except Exception as e:  # noqa
         return [["?", type(e).__name__]]
+
+
+def _kids(st):
+    """atoms of the child-flow instances f<i> that are still running"""
+    try:
+        return sorted(int(fs.flow_id[1:]) for fs in st.flow_states.values()
+                      if re.fullmatch(r"f\d+", fs.flow_id) and fs.status.name in ("WAITING", "STARTING", "STARTED"))
+    except Exception as e:  # noqa
+        return ["?", type(e).__name__]
+
+
+def failure_events(case, run):
+    """per event: was the failure path of the statement taken while processing it? (else branch / main flow aborted)"""
+    if case["op"] == "whenfe":
+        return list(run["fails"])
+    out, prev = [], "STARTED"
+    for m in run["mains"]:
+        out.append(1 if (m != "STARTED" and prev == "STARTED") else 0)
+        prev = m
+    return out
 
 
 def ev_name(a):
@@ -674,6 +709,9 @@ def model_requests(case, obs):
     if case["op"] == "match" and "runs" in obs:
         # head-level machine with the tie-breaks the interpreter drew
         reqs.append({"m": "C07.vm", "g": obs["g_seen"], "seqs": case["seqs"], "choices": [r["choices"] for r in obs["runs"]]})
+    if case["op"] in FLOW_OPS and "runs" in obs:
+        # flow-level machine (child flows, Finished / Failed, failure path, clean-up of the losers)
+        reqs.append({"m": "C07.flow", "g": obs["g_seen"], "seqs": case["seqs"]})
     return reqs
 
 
@@ -727,6 +765,19 @@ def compare(case, obs, mouts):
         if not case["op"].endswith("f") and run["main"] != "STARTED":
             # model: after completion no head of the group is left, before completion the heads just wait
             return f"sequence {seq}: main flow ended in status {run['main']} (model: it keeps waiting on `match Never()`)"
+    if case["op"] in FLOW_OPS and len(mouts) > 1:
+        fl = mouts[-1]
+        if sorted(fl["init"]) != obs.get("kids_init"):
+            return f"child flows running after the statement was reached: implementation {obs.get('kids_init')}, flow-level model {sorted(fl['init'])}"
+        for seq, run, tr in zip(case["seqs"], obs["runs"], fl["runs"]):
+            fe = failure_events(case, run)
+            for k, step in enumerate(tr):
+                if (1 if step["o"] == 1 else 0) != run["hits"][k] or (1 if step["o"] == 2 else 0) != fe[k]:
+                    return (f"sequence {seq} event {k}: flow-level model says {['nothing', 'marker', 'failure path'][step['o']]}, implementation "
+                            f"hits {run['hits']} failure path {fe} (main {run['mains']})")
+                if sorted(step["ch"]) != run["kids"][k]:
+                    return f"sequence {seq} event {k}: running child flows implementation {run['kids'][k]}, flow-level model {sorted(step['ch'])}"
+        return None
     if len(mouts) > 1:
         v = mouts[1]
         if not v["nonempty"]:
@@ -816,6 +867,18 @@ def oracle(case, obs):
             k = next(i for i, (a, b) in enumerate(zip(got, exp)) if a != b)
             what = "before the formula is satisfied" if got[k] > exp[k] and 1 not in exp[:k + 1] else ("again after completion" if got[k] > exp[k] else "not at the first satisfying prefix")
             return f"{case['op']} group {render(g, case['kinds'] + ['ev'] * 10)}: sequence {seq}: marker {what} (hits {got}, formula says {exp}, main flow {run['main']})"
+        if case["op"] in FAIL_OPS:
+            fe = failure_events(case, run)
+            fin, dead = set(), set()
+            for k, a in enumerate(seq):
+                if a >= FAIL:
+                    if a - FAIL not in fin:
+                        dead.add(a - FAIL)
+                elif a not in dead:
+                    fin.add(a)
+                if fe[k] and (1 in exp[:k + 1] or ev(g, set(atoms_of(g)) - dead)):
+                    return (f"{case['op']} group {render(g, case['kinds'] + ['ev'] * 10)}: sequence {seq}: the failure path was taken at index {k} although the "
+                            f"group {'had completed' if 1 in exp[:k + 1] else 'can still be satisfied (failed flows ' + str(sorted(dead)) + ')'}")
         if 1 in exp:
             k = exp.index(1)
             if case["op"] == "when2":
